@@ -1,0 +1,23 @@
+//go:build verif
+
+// Contracts for the deductive verification in /verif (comment-only; compiled code is unaffected).
+package accountmanager
+
+// C20: a response or an error for every request; the state mirrors the service's verdict.
+//@ func (*Handler).Lock
+//@ requires h != nil
+//@ requires [unlocked] !prelocked && (forall k [48]byte :: !held[k])
+//@ modifies checkedset, deniedset, tokroot, db, held, prelocked
+//@ ensures [answer] (req == nil ==> result0 == nil && result1 != nil) && (req != nil ==> result0 != nil && result1 == nil)
+//@ func (*Handler).Unlock
+//@ requires h != nil
+//@ requires [unlocked] !prelocked && (forall k [48]byte :: !held[k])
+//@ modifies checkedset, deniedset, tokroot, db, held, prelocked
+//@ ensures [answer] (req == nil ==> result0 == nil && result1 != nil) && (req != nil ==> result0 != nil && result1 == nil)
+//@ func (*Handler).Generate
+//@ requires h != nil
+//@ modifies procstate
+//@ ensures [answer] (req == nil ==> result0 == nil && result1 != nil) && (req != nil ==> result0 != nil && result1 == nil)
+//@ ensures [failed] req != nil && result0.State != pb.ResponseState_SUCCEEDED ==> len(result0.PublicKey) == 0 && len(result0.Participants) == 0
+//@ loop #1
+//@ invariant [range] 0 <= _n && _n <= len(participants) && res != nil && fresh(res) && len(res.Participants) == len(participants) && fresh(res.Participants)
